@@ -5,10 +5,13 @@
 # is run on it, the patch is reverted). Expected: every seed raises a VIOLATION
 # that the unchanged tree does not. Prints one line per seed; exit 1 if one is missed.
 set -u
+# a private build cache, removed at the end: every scratch worktree has its own path, and a shared
+# cache grows by gigabytes per hundred worktrees
+export GOCACHE=${GOCACHE_REGRESS:-/tmp/gocache-regress-$$}
 WT=/tmp/wt-regress-$$
 OUT=/tmp/seed-regress-out-$$
 git -C /repo worktree add -q --detach $WT HEAD || exit 2
-trap 'git -C /repo worktree remove --force $WT >/dev/null 2>&1; rm -rf $OUT' EXIT
+trap 'rm -rf $GOCACHE; git -C /repo worktree remove --force $WT >/dev/null 2>&1; rm -rf $OUT' EXIT
 mkdir -p $OUT; cp ${VERIF_HOME:-/verif}/known_findings.json $OUT/
 IDS="${*:-$(ls -d ${VERIF_HOME:-/verif}/seeded/*/ | xargs -n1 basename | sort)}"
 miss=0
